@@ -1,8 +1,403 @@
-"""Thorough-tier engines beyond the native session simulator (engine N):
-determinism self-proof of the simulator, engine M (Miri), engine R (the shipped dylib in real
-rustc). Each returns extra evidence; violations are returned as class reports in the same
-shape as dexsim's."""
+"""Engines beyond the native session simulator (engine N):
 
+* determinism self-proof of the simulator (decision logs and event logs of repeated runs at
+  several worker counts must be identical) — also the D3 oracle (replay stability);
+* engine R: the shipped proc-macro dylib (guard OFF) inside real rustc processes —
+  R-T greps for panics / message-less compile_error! on generated inputs, R-D expands the same
+  crate in several compiler processes and compares the bytes;
+* engine M: the scripted session under Miri with many seeds (OS randomness, addresses and
+  preemption are Miri's, hence seeded).
+
+Violations are returned as class reports shaped like dexsim's. Harness problems raise
+HarnessError (exit 2), never a violation.
+"""
+import concurrent.futures
+import hashlib
+import json
+import os
+import re
+import shutil
+import subprocess
+import time
+
+
+class HarnessError(Exception):
+    pass
+
+
+def _env():
+    env = dict(os.environ)
+    env["CARGO_NET_OFFLINE"] = "true"
+    env.pop("RUSTFLAGS", None)
+    env.pop("RUSTC_WRAPPER", None)
+    return env
+
+
+# --------------------------------------------------------------------------- self-proof / D3
+
+def self_proof(kw, sessions, job_counts):
+    """Runs the same `sessions` sessions once per entry of job_counts (plus one repeat of the
+    first) with full step logs and compares. Decision logs (plans) differing = harness error;
+    event logs differing with equal plans = the expander answered differently in two identical
+    executions = violation (D3)."""
+    exe, seed, out, run_native = kw["exe"], kw["seed"], kw["out"], kw["run_native_raw"]
+    runs = []
+    t0 = time.time()
+    for k, jobs in enumerate(list(job_counts) + [job_counts[0]]):
+        d = os.path.join(out, f"selfproof-{k}")
+        n = run_native(exe, seed, jobs, d, sessions=sessions, step_log=True)
+        log = open(os.path.join(d, "step_log.txt")).read() if os.path.exists(os.path.join(d, "step_log.txt")) else ""
+        runs.append((jobs, n, log, d))
+    base = runs[0]
+    classes = []
+    for jobs, n, log, d in runs[1:]:
+        if n["plan_digests"] != base[1]["plan_digests"]:
+            raise HarnessError(f"simulator decision logs differ between two runs of the same seed "
+                               f"(jobs={base[0]} vs jobs={jobs}): the simulator itself is not deterministic")
+        if log != base[2]:
+            # find the first differing session / step
+            a, b = base[2].splitlines(), log.splitlines()
+            where = next((i for i, (x, y) in enumerate(zip(a, b)) if x != y), min(len(a), len(b)))
+            sess = "?"
+            for line in a[:where + 1][::-1]:
+                if line.startswith("S"):
+                    sess = line[1:]
+                    break
+            classes.append({
+                "class": "diverge-on-replay",
+                "kind": "diverge",
+                "occurrences": 1,
+                "replay": _write_d3_replay(kw, sess, a[where] if where < len(a) else "", b[where] if where < len(b) else ""),
+                "reproducible": False,
+                "input": f"session {sess} of seed {seed}",
+                "detail": f"two executions of the identical schedule (same seed, same plan digest) logged different "
+                          f"outputs: `{a[where] if where < len(a) else ''}` vs `{b[where] if where < len(b) else ''}`",
+            })
+            break
+    for _, _, _, d in runs:
+        shutil.rmtree(d, ignore_errors=True)
+    info = {
+        "sessions": sessions,
+        "runs": len(runs),
+        "job_counts": list(job_counts) + [job_counts[0]],
+        "requests_per_run": base[1]["requests"],
+        "identical_decision_logs": True,
+        "identical_event_logs": not classes,
+        "wall_s": round(time.time() - t0, 1),
+    }
+    return info, classes, base[1]["requests"] * len(runs)
+
+
+def _write_d3_replay(kw, sess, a, b):
+    p = os.path.join(kw["replays"], f"C16-diverge-replay-{kw['seed']}-{sess}.json")
+    json.dump({
+        "property": "C16", "class": "diverge-on-replay", "kind": "diverge", "engine": "N",
+        "root_seed": kw["seed"], "session_idx": sess, "reproducible": False,
+        "detail": "identical schedule, different output in two executions",
+        "observed_a": a, "observed_b": b,
+        "how_to_replay": f"VERIF_SEED={kw['seed']} ./check C16 --tier thorough (self-proof stage) or "
+                         f"sim/target/release/dexsim session --root {kw['seed']} --idx {sess} --step-log twice and diff",
+        "plan": {"reqs": [], "steps": []},
+        "input": f"session {sess}",
+    }, open(p, "w"), indent=1)
+    return p
+
+
+# --------------------------------------------------------------------------- engine R
+
+def build_real_dylib(repo, target_dir, toolchain=None):
+    """Builds the shipped proc-macro (guard off) from the working tree and returns the .so."""
+    cmd = ["cargo"] + ([f"+{toolchain}"] if toolchain else []) + [
+        "build", "--offline", "--manifest-path", os.path.join(repo, "Cargo.toml"), "-p", "derive-ex",
+        "--target-dir", target_dir, "--message-format=json"]
+    r = subprocess.run(cmd, env=_env(), capture_output=True, text=True)
+    if r.returncode != 0:
+        raise HarnessError(f"cannot build the proc-macro dylib ({toolchain or 'stable'}):\n{r.stderr[-3000:]}")
+    so = None
+    for line in r.stdout.splitlines():
+        try:
+            m = json.loads(line)
+        except ValueError:
+            continue
+        if m.get("reason") == "compiler-artifact" and m.get("target", {}).get("name") in ("derive_ex", "derive-ex"):
+            for f in m.get("filenames", []):
+                if f.endswith(".so"):
+                    so = f
+    if not so:
+        raise HarnessError("proc-macro dylib not found in cargo's output")
+    return so
+
+
+PANIC_RE = re.compile(r"^error: (custom attribute|proc-macro derive|proc macro) panicked", re.M)
+NOMSG_RE = re.compile(r"^error: (`?compile_error!`? takes 1 argument|\s*$)", re.M)
+LOC_RE = re.compile(r"^\s*--> ([^:\n]+):(\d+):\d+", re.M)
+
+
+def _module_at(src_lines, line_no):
+    for i in range(min(line_no, len(src_lines)) - 1, -1, -1):
+        m = re.match(r"^mod (m\d+) \{", src_lines[i])
+        if m:
+            return m.group(1)
+    return None
+
+
+def _rustc_metadata(rustc, so, src, out_dir):
+    r = subprocess.run([rustc, "--edition", "2021", "--crate-type", "lib", "--emit=metadata",
+                        "--out-dir", out_dir, "--extern", f"derive_ex={so}", src],
+                       env={"PATH": "/usr/bin:/bin"}, capture_output=True, text=True)
+    return r.stderr
+
+
+def engine_r_t(kw, n_inputs, chunks):
+    """Real host, T1/T3: generated + corpus + directed inputs through the shipped dylib."""
+    exe, out, rustc, seed = kw["exe"], kw["out"], kw["rustc"], kw["seed"]
+    d = os.path.join(out, "engine-r")
+    shutil.rmtree(d, ignore_errors=True)
+    os.makedirs(d)
+    t0 = time.time()
+    so = build_real_dylib(kw["repo"], os.path.join(out, "r-target-stable"))
+    per = max(1, n_inputs // chunks)
+    files = []
+    for c in range(chunks):
+        f = os.path.join(d, f"t{c}.rs")
+        cmd = [exe, "emit-crate", "--repo", kw["repo"], "--root", str(seed), "--from", str(c * per),
+               "--n", str(per), "--out", f, "--no-user-compile-error"]
+        if c == 0:
+            cmd.append("--with-pool")
+        r = subprocess.run(cmd, env={"PATH": "/usr/bin:/bin"}, capture_output=True, text=True)
+        if r.returncode != 0:
+            raise HarnessError(f"emit-crate failed: {r.stderr[-2000:]}")
+        files.append(f)
+    classes = []
+    modules = 0
+    with concurrent.futures.ThreadPoolExecutor(max_workers=kw["jobs"]) as ex:
+        errs = list(ex.map(lambda f: _rustc_metadata(rustc, so, f, d), files))
+    for f, err in zip(files, errs):
+        src_lines = open(f).read().splitlines()
+        index = {e["module"]: e for e in json.load(open(f[:-3] + ".index.json"))}
+        modules += len(index)
+        for kind, rx in (("panic", PANIC_RE), ("nomsg", NOMSG_RE)):
+            for m in rx.finditer(err):
+                loc = LOC_RE.search(err, m.end())
+                mod = _module_at(src_lines, int(loc.group(2))) if loc else None
+                ent = index.get(mod)
+                tail = err[m.start():m.start() + 600]
+                if not ent:
+                    raise HarnessError(f"engine R: cannot attribute diagnostic to a module:\n{tail}")
+                req = ent["req"]
+                disp = (f"#[derive_ex({req['attr']})] {req['item']}" if req["mode"] == "attr"
+                        else f"#[derive(Ex)] {req['item']}")
+                p = os.path.join(kw["replays"], "C16-real-" + kind + "-" +
+                                 hashlib.sha1(disp.encode()).hexdigest()[:12] + ".json")
+                json.dump({"property": "C16", "class": f"{kind} in the real host (rustc + shipped dylib)",
+                           "kind": kind, "engine": "R", "detail": tail, "root_seed": seed,
+                           "session_idx": 0, "original_step": 0, "original_steps_in_session": 1,
+                           "minimisation_trials": 0, "reproducible": True, "input": disp,
+                           "plan": {"reqs": [req], "steps": [{"req": 0, "thread": "main", "policy": {"kind": "keep"}}]}},
+                          open(p, "w"), indent=1)
+                classes.append({"class": f"{kind} in the real host (rustc + shipped dylib)", "kind": kind,
+                                "occurrences": 1, "replay": p, "reproducible": True, "input": disp,
+                                "detail": tail.splitlines()[0] + " | " + " ".join(tail.splitlines()[1:6])})
+    # one report per kind (smallest input)
+    best = {}
+    for c in classes:
+        k = c["class"]
+        if k not in best or len(c["input"]) < len(best[k]["input"]):
+            n = best[k]["occurrences"] + 1 if k in best else 1
+            best[k] = dict(c, occurrences=n)
+        else:
+            best[k]["occurrences"] += 1
+    shutil.rmtree(d, ignore_errors=True)
+    return {"modules_compiled": modules, "rustc_processes": len(files), "wall_s": round(time.time() - t0, 1),
+            "dylib": os.path.basename(so)}, list(best.values()), modules
+
+
+def replay_real(kw, path):
+    """Replays an engine-R replay file: one module, the shipped dylib, real rustc."""
+    rf = json.load(open(path))
+    req = rf["plan"]["reqs"][0]
+    d = os.path.join(kw["out"], "engine-r-replay")
+    shutil.rmtree(d, ignore_errors=True)
+    os.makedirs(d)
+    so = build_real_dylib(kw["repo"], os.path.join(kw["out"], "r-target-stable"))
+    body = (f"#[derive_ex({req['attr']})]\n{req['item']}" if req["mode"] == "attr" else f"#[derive(Ex)]\n{req['item']}")
+    src = os.path.join(d, "r.rs")
+    open(src, "w").write("#![allow(warnings)]\nmod m0 {\nuse ::derive_ex::{derive_ex, Ex};\n" + body + "\n}\n")
+    err = _rustc_metadata(kw["rustc"], so, src, d)
+    rx = PANIC_RE if rf["kind"] == "panic" else NOMSG_RE
+    hit = rx.search(err)
+    print(err[:3000])
+    shutil.rmtree(d, ignore_errors=True)
+    return bool(hit)
+
+
+def engine_r_d(kw, n_inputs, processes):
+    """Real host, D: the same crate expanded by `processes` separate nightly rustc processes
+    (different OS hash keys, ASLR, pid, clock); the expanded text must be byte-identical."""
+    exe, out, seed = kw["exe"], kw["out"], kw["seed"]
+    d = os.path.join(out, "engine-rd")
+    shutil.rmtree(d, ignore_errors=True)
+    os.makedirs(d)
+    t0 = time.time()
+    try:
+        so = build_real_dylib(kw["repo"], os.path.join(out, "r-target-nightly"), "nightly")
+    except HarnessError as e:
+        return {"skipped": f"nightly dylib not buildable: {str(e)[:200]}"}, [], 0
+    f = os.path.join(d, "d.rs")
+    r = subprocess.run([exe, "emit-crate", "--repo", kw["repo"], "--root", str(seed), "--n", str(n_inputs),
+                        "--with-pool", "--ok-only", "--out", f], env={"PATH": "/usr/bin:/bin"},
+                       capture_output=True, text=True)
+    if r.returncode != 0:
+        raise HarnessError(f"emit-crate failed: {r.stderr[-2000:]}")
+    index = json.load(open(f[:-3] + ".index.json"))
+
+    def expand(_):
+        r = subprocess.run(["rustc", "+nightly", "--edition", "2021", "--crate-type", "lib",
+                            "-Zunpretty=expanded", "--extern", f"derive_ex={so}", f],
+                           env=_env(), capture_output=True, text=True)
+        return r.stdout, r.stderr
+
+    with concurrent.futures.ThreadPoolExecutor(max_workers=min(processes, kw["jobs"])) as ex:
+        outs = list(ex.map(expand, range(processes)))
+    base = outs[0][0]
+    if "please recompile that crate" in outs[0][1] or base.count("#[automatically_derived]") < len(index):
+        # the dylib did not load or nothing expanded: this pass proves nothing, say so
+        shutil.rmtree(d, ignore_errors=True)
+        return {"skipped": "the nightly compiler did not expand the crate (dylib not loaded or errors "
+                           "stopped expansion); pass not counted"}, [], 0
+    classes = []
+    for k, (o, _) in enumerate(outs[1:], 1):
+        if o != base:
+            a, b = base.splitlines(), o.splitlines()
+            where = next((i for i, (x, y) in enumerate(zip(a, b)) if x != y), min(len(a), len(b)))
+            mod = _module_at(a, where + 1)
+            ent = next((e for e in index if e["module"] == mod), None)
+            req = ent["req"] if ent else {"mode": "attr", "attr": "", "item": ""}
+            disp = (f"#[derive_ex({req['attr']})] {req['item']}" if req["mode"] == "attr"
+                    else f"#[derive(Ex)] {req['item']}")
+            p = os.path.join(kw["replays"], f"C16-real-diverge-{hashlib.sha1(disp.encode()).hexdigest()[:12]}.json")
+            json.dump({"property": "C16", "class": "diverge-across-processes", "kind": "diverge", "engine": "R",
+                       "detail": f"two rustc processes expanded module {mod} differently",
+                       "root_seed": seed, "session_idx": 0, "original_step": 0, "original_steps_in_session": 1,
+                       "minimisation_trials": 0, "reproducible": False, "input": disp,
+                       "output_a": "\n".join(a[max(0, where - 3):where + 4]),
+                       "output_b": "\n".join(b[max(0, where - 3):where + 4]),
+                       "plan": {"reqs": [req], "steps": [{"req": 0, "thread": "main", "policy": {"kind": "os"}}]}},
+                      open(p, "w"), indent=1)
+            classes.append({"class": "diverge-across-processes (real host)", "kind": "diverge", "occurrences": 1,
+                            "replay": p, "reproducible": False, "input": disp,
+                            "detail": f"process 0 line {where + 1}: `{a[where] if where < len(a) else ''}` vs process {k}: "
+                                      f"`{b[where] if where < len(b) else ''}`"})
+            break
+    # cross-check N against R: the real bridge and the fallback must agree on the tokens
+    agree, compared = _cross_check(kw, base, index)
+    shutil.rmtree(d, ignore_errors=True)
+    return {"modules_expanded": len(index), "rustc_processes": processes, "byte_identical": not classes,
+            "native_vs_real_host_agreement": {"modules_compared": compared, "token_identical": agree},
+            "wall_s": round(time.time() - t0, 1)}, classes, len(index) * processes
+
+
+def _cross_check(kw, expanded, index):
+    """Feeds the real host's expansion of every module back to dexsim, which re-lexes it and
+    compares it (spacing-insensitively) with engine N's own output for the same request.
+    Informational: pretty-printing is not guaranteed to be token-preserving."""
+    d = os.path.join(kw["out"], "engine-rd")
+    p = os.path.join(d, "expanded.rs")
+    open(p, "w").write(expanded)
+    r = subprocess.run([kw["exe"], "cross-check", "--expanded", p, "--index", os.path.join(d, "d.index.json")],
+                       env={"PATH": "/usr/bin:/bin"}, capture_output=True, text=True)
+    m = re.search(r"cross-check: (\d+) of (\d+)", r.stdout)
+    if not m:
+        return 0, 0
+    return int(m.group(1)), int(m.group(2))
+
+
+# --------------------------------------------------------------------------- engine M
+
+def engine_m(kw, seeds):
+    """The scripted session under Miri, `seeds` seeds; every seed must print the same digests."""
+    sim = os.path.join(kw["verif"], "sim")
+    env = _env()
+    env["RUSTFLAGS"] = "--cfg frozenlib_derive_ex_verif"
+    env["MIRIFLAGS"] = f"-Zmiri-many-seeds=0..{seeds} -Zmiri-preemption-rate=0.1"
+    t0 = time.time()
+    try:
+        r = subprocess.run(["cargo", "+nightly", "miri", "run", "--offline", "--release", "--", "script"],
+                           cwd=sim, env=env, capture_output=True, text=True, timeout=3600)
+    except subprocess.TimeoutExpired:
+        return {"skipped": "Miri run exceeded one hour"}, [], 0
+    lines = [l for l in r.stdout.splitlines() if l.startswith("SCRIPT ")]
+    finals = [l for l in lines if l.startswith("SCRIPT RESULT")]
+    if not finals:
+        return {"skipped": "Miri produced no result lines: " + r.stderr[-400:].replace("\n", " | ")}, [], 0
+    distinct = sorted(set(finals))
+    bad = [l for l in lines if l.startswith("SCRIPT VIOLATION")]
+    classes = []
+    if len(distinct) > 1 or bad:
+        p = os.path.join(kw["replays"], "C16-miri-diverge.json")
+        json.dump({"property": "C16", "class": "diverge under Miri seeds", "kind": "diverge", "engine": "M",
+                   "detail": "the scripted session printed different digests under different Miri seeds "
+                             "(OS randomness / addresses / preemption)",
+                   "distinct_results": distinct, "violations": bad[:20],
+                   "how_to_replay": f"cd sim && MIRIFLAGS='-Zmiri-many-seeds=0..{seeds} -Zmiri-preemption-rate=0.1' "
+                                    "RUSTFLAGS='--cfg frozenlib_derive_ex_verif' cargo +nightly miri run --offline --release -- script",
+                   "plan": {"reqs": [], "steps": []}, "input": "scripted session (sim/src/script.rs)",
+                   "reproducible": True}, open(p, "w"), indent=1)
+        classes.append({"class": "diverge under Miri seeds", "kind": "diverge", "occurrences": len(distinct),
+                        "replay": p, "reproducible": True, "input": "scripted session (sim/src/script.rs)",
+                        "detail": "; ".join(distinct[:3] + bad[:3])})
+    n_exp = 0
+    m = re.search(r"expansions=(\d+)", finals[0])
+    if m:
+        n_exp = int(m.group(1))
+    return {"seeds_completed": len(finals), "seeds_requested": seeds, "expansions_per_seed": n_exp,
+            "distinct_results": len(distinct), "wall_s": round(time.time() - t0, 1),
+            "flags": env["MIRIFLAGS"]}, classes, n_exp * len(finals)
+
+
+# --------------------------------------------------------------------------- entry
 
 def run_extra(**kw):
-    return {"classes": [], "engines": {}, "notes": [], "assumptions": [], "evaluations": 0}
+    tier = kw["tier"]
+    res = {"classes": [], "engines": {}, "notes": [], "assumptions": [], "evaluations": 0}
+    res["engines"]["N"] = {
+        "what": "native session simulator (dexsim): real derive-ex/src, syn, quote, structmeta; "
+                "stubbed: proc_macro bridge -> proc-macro2 fallback, #[proc_macro*] wrappers -> verbatim copies "
+                "in verif_hooks, RandomState -> keyed hasher seam",
+        "ran": True,
+    }
+    try:
+        if tier == "quick":
+            info, classes, ev = self_proof(kw, sessions=16, job_counts=[kw["jobs"], 2])
+            res["engines"]["self_proof"] = info
+            res["classes"] += classes
+            res["evaluations"] += ev
+            res["engines"]["M"] = {"ran": False, "why": "thorough tier only (Miri costs ~7 s CPU per expansion)"}
+            res["engines"]["R"] = {"ran": False, "why": "thorough tier only"}
+        else:
+            info, classes, ev = self_proof(kw, sessions=256, job_counts=[kw["jobs"], 4, 1])
+            res["engines"]["self_proof"] = info
+            res["classes"] += classes
+            res["evaluations"] += ev
+            info, classes, ev = engine_r_t(kw, n_inputs=16000, chunks=max(16, kw["jobs"]))
+            res["engines"]["R-T"] = dict(info, what="shipped dylib (guard off), real proc_macro bridge, real wrappers, "
+                                                    "stable rustc --emit=metadata; verdict only on macro panics and "
+                                                    "message-less compile_error!; nothing stubbed")
+            res["classes"] += classes
+            res["evaluations"] += ev
+            info, classes, ev = engine_r_d(kw, n_inputs=3000, processes=4)
+            res["engines"]["R-D"] = dict(info, what="shipped dylib built with nightly, nightly rustc -Zunpretty=expanded in "
+                                                    "separate processes, byte comparison; nothing stubbed")
+            res["classes"] += classes
+            res["evaluations"] += ev
+            info, classes, ev = engine_m(kw, seeds=int(os.environ.get("VERIF_MIRI_SEEDS", "48")))
+            res["engines"]["M"] = dict(info, what="dexsim `script` under Miri: hasher seam bypassed (real RandomState, "
+                                                  "seeded by Miri), two concurrently expanding threads, seeded preemption "
+                                                  "and addresses; stubbed: proc_macro bridge -> fallback")
+            res["classes"] += classes
+            res["evaluations"] += ev
+    except HarnessError as e:
+        import sys
+        print(f"check: harness error: {e}", file=sys.stderr)
+        sys.exit(2)
+    return res
